@@ -11,6 +11,12 @@
 (*          "annotation"; history/MC_SchemaRel_target_sound_event.cfg keys *)
 (*          targets on the wrapped sound event and TLC refutes it on cases *)
 (*          where two annotations wrap one sound event)                    *)
+(*          MatchKey = "merged_pool" (history/MC_SchemaRel_merged_pool.cfg)*)
+(*          checks both sides in one pool of uuids: refuted on cases where *)
+(*          a prediction carries the uuid of an annotation (pu).           *)
+(*          ClipKey = "deep" (history/MC_SchemaRel_clip_deep.cfg) compares *)
+(*          clips by deep equality: refuted on later-enriched copies of a  *)
+(*          clip (pairings copy_features / copy_rec_tag, project enr)      *)
 (*  match   Match._validate_match                                          *)
 (*  project _annotations_are_part_of_the_project: loop over the annotated  *)
 (*          clips, error at the first one without a task                   *)
@@ -29,7 +35,10 @@ CONSTANTS MaxLen,        \* all match sequences up to this length (pairing "same
           NoForeignLen,  \* plus sorted sequences without foreign members of exactly this length (0 = none)
           OtherLen,      \* match sequences up to this length for the other three pairings (no foreign members)
           WrapLen,       \* match sequences up to this length when annotations / predictions share a sound event
+          ShareLen,      \* match sequences up to this length when a prediction carries the uuid of an annotation
           MatchKey,      \* "annotation" (the code) | "target_sound_event" (control: targets keyed on the wrapped sound event)
+                         \* | "merged_pool" (control: sources and targets checked in one pool of uuids)
+          ClipKey,       \* "uuid" (the code) | "deep" (control: clips compared by deep equality instead of by uuid)
           ClipValidator  \* "after" | "before"
 VARIABLES c, path, pc, k, ok
 
@@ -47,8 +56,12 @@ Local == (0..2) \X (0..2)
 
 Own == <<1, 2, 3>>                                   \* every annotation / prediction wraps its own sound event
 Wraps == {<<1, 1, 3>>, <<1, 2, 1>>, <<1, 1, 1>>}     \* 1 and 2 share; the foreign one shares with 1; all three share
-CEW(na, np, ms, pr, ase, pse) == [kind |-> "ce", na |-> na, np |-> np, ms |-> ms, pairing |-> pr, ase |-> ase, pse |-> pse]
+OwnIds == <<0, 0, 0>>                                \* every prediction has a uuid of its own
+Shares == {<<1, 0, 0>>, <<2, 0, 0>>, <<1, 2, 0>>, <<0, 0, 1>>}    \* p1~a1; p1~a2; p1~a1 and p2~a2; the foreign prediction ~a1
+CEU(na, np, ms, pr, ase, pse, pu) == [kind |-> "ce", na |-> na, np |-> np, ms |-> ms, pairing |-> pr, ase |-> ase, pse |-> pse, pu |-> pu]
+CEW(na, np, ms, pr, ase, pse) == CEU(na, np, ms, pr, ase, pse, OwnIds)
 CE(na, np, ms, pr) == CEW(na, np, ms, pr, Own, Own)
+Enrich == {<<0, 0, 0>>, <<1, 1, 1>>, <<2, 2, 2>>, <<1, 0, 2>>}
 ClipPoints == <<0, 5, 9, 10, 100>>          \* ticks whose decimal renderings order differently from their values
 Encs == {"num", "int", "str", "str_num", "num_str"}
 OptFieldOK(f, v) == v # "none" \/ OptionalField(f)
@@ -58,14 +71,17 @@ InitCase ==
           \/ \E n \in 0..MaxLen : \E ms \in SeqsOfLen(Pairs, n) : c = CE(na, np, ms, "same")
           \/ SortedLen > MaxLen /\ \E ms \in SeqsOfLen(Pairs, SortedLen) : Sorted(ms) /\ c = CE(na, np, ms, "same")
           \/ NoForeignLen > SortedLen /\ \E ms \in SeqsOfLen(Local, NoForeignLen) : Sorted(ms) /\ c = CE(na, np, ms, "same")
-          \/ \E n \in 0..OtherLen : \E ms \in SeqsOfLen(Local, n) : \E pr \in {"copy", "diff_times", "diff_rec"} : c = CE(na, np, ms, pr)
+          \/ \E n \in 0..OtherLen : \E ms \in SeqsOfLen(Local, n) : \E pr \in {"copy", "copy_features", "copy_rec_tag", "diff_times", "diff_rec"} : c = CE(na, np, ms, pr)
     \* annotations (predictions) that wrap one and the same sound event; the other side is kept small
     \/ \E w \in Wraps, n \in 0..WrapLen :
           \/ \E na \in 1..2, np \in 0..1 : \E ms \in SeqsOfLen((0..1) \X Side, n) : c = CEW(na, np, ms, "same", w, Own)
           \/ \E na \in 0..1, np \in 1..2 : \E ms \in SeqsOfLen(Side \X (0..1), n) : c = CEW(na, np, ms, "same", Own, w)
+    \* a prediction and an annotation of the clip that carry the same uuid
+    \/ \E pu \in Shares, n \in 0..ShareLen, na \in 1..2, np \in 1..2 :
+          \E ms \in SeqsOfLen(Side \X (0..2), n) : c = CEU(na, np, ms, "same", Own, Own, pu)
     \/ \E s \in 0..1, t \in 0..1 : c = [kind |-> "match", s |-> s, t |-> t]
-    \/ \E tk \in [1..3 -> BOOLEAN], an \in [1..3 -> BOOLEAN] :
-          c = [kind |-> "project", task |-> <<tk[1], tk[2], tk[3]>>, ann |-> <<an[1], an[2], an[3]>>]
+    \/ \E tk \in [1..3 -> BOOLEAN], an \in [1..3 -> BOOLEAN], enr \in Enrich :
+          c = [kind |-> "project", task |-> <<tk[1], tk[2], tk[3]>>, ann |-> <<an[1], an[2], an[3]>>, enr |-> enr]
     \/ \E i \in DOMAIN ClipPoints, j \in DOMAIN ClipPoints, u \in 1..2, e \in Encs :
           (e = "int" => u = 1) /\ c = [kind |-> "clip", st |-> ClipPoints[i], en |-> ClipPoints[j], u |-> u, enc |-> e]
     \/ \E f \in DOMAIN Fields, v \in DOMAIN ScoreValues, e \in {"num", "str"} :
@@ -83,16 +99,29 @@ Goto(l)   == pc' = l /\ UNCHANGED <<c, path, ok>>
 CeMatchOk   == pc = "ce" /\ k <= Len(c.ms) /\ MatchHasSide(c.ms[k]) /\ k' = k + 1 /\ UNCHANGED <<c, path, pc, ok>>
 CeMatchNull == pc = "ce" /\ k <= Len(c.ms) /\ ~MatchHasSide(c.ms[k]) /\ Fail("E:match between two null objects")
 CeMatchesDone == pc = "ce" /\ k > Len(c.ms) /\ Goto("ce_clips") /\ k' = k
-CeClipsOk   == pc = "ce_clips" /\ SameClip(c.pairing) /\ Goto("ce_dup_t") /\ k' = k
-CeClipsBad  == pc = "ce_clips" /\ ~SameClip(c.pairing) /\ Fail("E:clips do not match")
+\* the two clips are taken for the same one: by uuid (the code), or (control) only when they are deeply equal
+ClipsTakenSame == SameClip(c.pairing) /\ (ClipKey = "uuid" \/ c.pairing \in {"same", "copy"})
+CeClipsOk   == pc = "ce_clips" /\ ClipsTakenSame /\ Goto("ce_dup_t") /\ k' = k
+CeClipsBad  == pc = "ce_clips" /\ ~ClipsTakenSame /\ Fail("E:clips do not match")
 \* what the target bookkeeping is keyed on: the annotation itself, or (control) the sound event it wraps
 TKey(t) == IF MatchKey = "target_sound_event" THEN c.ase[t] ELSE t
 Targets == [i \in DOMAIN SelectSeq([i \in DOMAIN c.ms |-> c.ms[i][2]], LAMBDA x : x # 0) |->
                TKey(SelectSeq([j \in DOMAIN c.ms |-> c.ms[j][2]], LAMBDA x : x # 0)[i])]
 Annotated == {TKey(a) : a \in 1..c.na}
 Sources == SelectSeq([i \in DOMAIN c.ms |-> c.ms[i][1]], LAMBDA x : x # 0)
-CeDupT   == pc = "ce_dup_t" /\ Len(Targets) # Cardinality(Range(Targets)) /\ Fail("E:multiple matches for the same target")
-CeNoDupT == pc = "ce_dup_t" /\ Len(Targets) = Cardinality(Range(Targets)) /\ Goto("ce_dup_s") /\ k' = k
+\* control "merged_pool": one pool of uuids for both sides; a prediction that carries an annotation's uuid collides with it
+AKey(a) == <<"a", a>>
+PKey(p) == IF c.pu[p] # 0 THEN <<"a", c.pu[p]>> ELSE <<"p", p>>
+Pool == [i \in 1..(Len(Targets) + Len(Sources)) |->
+            IF i <= Len(Targets) THEN AKey(SelectSeq([j \in DOMAIN c.ms |-> c.ms[j][2]], LAMBDA x : x # 0)[i])
+            ELSE PKey(Sources[i - Len(Targets)])]
+Expected == {AKey(a) : a \in 1..c.na} \cup {PKey(q) : q \in 1..c.np}
+Merged == MatchKey = "merged_pool"
+MergedOK == Len(Pool) = Cardinality(Range(Pool)) /\ Range(Pool) = Expected
+CeMergedOk  == pc = "ce_dup_t" /\ Merged /\ MergedOK /\ Goto("built") /\ k' = k
+CeMergedBad == pc = "ce_dup_t" /\ Merged /\ ~MergedOK /\ Fail("E:merged pool")
+CeDupT   == pc = "ce_dup_t" /\ ~Merged /\ Len(Targets) # Cardinality(Range(Targets)) /\ Fail("E:multiple matches for the same target")
+CeNoDupT == pc = "ce_dup_t" /\ ~Merged /\ Len(Targets) = Cardinality(Range(Targets)) /\ Goto("ce_dup_s") /\ k' = k
 CeDupS   == pc = "ce_dup_s" /\ Len(Sources) # Cardinality(Range(Sources)) /\ Fail("E:multiple matches for the same source")
 CeNoDupS == pc = "ce_dup_s" /\ Len(Sources) = Cardinality(Range(Sources)) /\ Goto("ce_set_t") /\ k' = k
 CeSetTBad == pc = "ce_set_t" /\ Range(Targets) # Annotated /\ Fail("E:not all example sound events were matched")
@@ -104,8 +133,10 @@ MatchOk   == pc = "match" /\ (c.s # 0 \/ c.t # 0) /\ Goto("built") /\ k' = k
 MatchNull == pc = "match" /\ c.s = 0 /\ c.t = 0 /\ Fail("E:match between two null objects")
 (* ---- project ---- *)
 ProjSkip == pc = "project" /\ k <= 3 /\ ~c.ann[k] /\ k' = k + 1 /\ UNCHANGED <<c, path, pc, ok>>
-ProjOk   == pc = "project" /\ k <= 3 /\ c.ann[k] /\ c.task[k] /\ k' = k + 1 /\ UNCHANGED <<c, path, pc, ok>>
-ProjBad  == pc = "project" /\ k <= 3 /\ c.ann[k] /\ ~c.task[k] /\ Fail("E:annotated clip is not part of the project")
+\* the annotated clip k is found among the task clips: by uuid (the code), or (control) only by a deeply equal copy
+HasTask(j) == c.task[j] /\ (ClipKey = "uuid" \/ c.enr[j] = 0)
+ProjOk   == pc = "project" /\ k <= 3 /\ c.ann[k] /\ HasTask(k) /\ k' = k + 1 /\ UNCHANGED <<c, path, pc, ok>>
+ProjBad  == pc = "project" /\ k <= 3 /\ c.ann[k] /\ ~HasTask(k) /\ Fail("E:annotated clip is not part of the project")
 ProjDone == pc = "project" /\ k > 3 /\ Goto("built") /\ k' = k
 (* ---- clip ---- *)
 RECURSIVE Digits(_)
@@ -131,7 +162,7 @@ ScoreHigh == pc = "score" /\ c.v # "none" /\ GeZero(c.v) /\ ~LeOne(c.v) /\ Fail(
 ScoreOk   == pc = "score" /\ c.v # "none" /\ GeZero(c.v) /\ LeOne(c.v) /\ Goto("built") /\ k' = k
 
 Next == \/ CeMatchOk \/ CeMatchNull \/ CeMatchesDone \/ CeClipsOk \/ CeClipsBad \/ CeDupT \/ CeNoDupT \/ CeDupS \/ CeNoDupS
-        \/ CeSetTBad \/ CeSetTOk \/ CeSetSBad \/ CeSetSOk \/ MatchOk \/ MatchNull
+        \/ CeMergedOk \/ CeMergedBad \/ CeSetTBad \/ CeSetTOk \/ CeSetSBad \/ CeSetSOk \/ MatchOk \/ MatchNull
         \/ ProjSkip \/ ProjOk \/ ProjBad \/ ProjDone \/ ClipOk \/ ClipBad \/ ClipCrash
         \/ ScoreNone \/ ScoreLow \/ ScoreHigh \/ ScoreOk
 Spec == Init /\ [][Next]_vars
@@ -144,7 +175,7 @@ ImplIffValid == Terminal => ((pc = "built") <=> Valid(c))
 \* every error message fires only when its own condition of the statement is broken
 ImplReasons == (~ok /\ c.kind = "ce") =>
     /\ pc = "E:match between two null objects" => \E i \in DOMAIN c.ms : ~MatchHasSide(c.ms[i])
-    /\ pc = "E:clips do not match" => ~SameClip(c.pairing)
+    /\ (pc = "E:clips do not match" /\ ClipKey = "uuid") => ~SameClip(c.pairing)
     /\ (pc = "E:multiple matches for the same target" /\ MatchKey = "annotation") => \E a \in 1..3 : Count(c.ms, 2, a) > 1
     /\ pc = "E:multiple matches for the same source" => \E p \in 1..3 : Count(c.ms, 1, p) > 1
 Laws == (pc = c.kind /\ k = 1) => LawOrderFree(c) /\ LawCounting(c) /\ LawEmpty
